@@ -162,6 +162,8 @@ def run(sc, choices=None):
             th.start()
             return th
 
+    if sc.get("prior"):
+        cfg["prior"] = dict(sc["prior"])  # the object was used before: an earlier connection was lost mid-frame / mid-message
     out = run_recv(int(sc.get("seed", 1)), stream, cfg, res, side=side, policy=sc.get("policy") if sender is not None else None,
                    choices=choices)
     w = out["world"]
@@ -173,7 +175,7 @@ def run(sc, choices=None):
     pings = [f for f in frames if f.opcode == 9]
     consumed = 0
     log = w.k.log
-    fd = w.net.sockets[0].fd if w.net.sockets else None
+    fd = w.net.sockets[-1].fd if w.net.sockets else None  # (the last socket: a re-used object had an earlier connection)
     ping_done_idx = {}  # ping index -> log index of the recv event that delivered its last byte
     pi = 0
     for idx, e in enumerate(log):
@@ -264,3 +266,32 @@ def sample_view(sc, r):
     return {"api": sc["api"], "ping_flood": sc.get("flood"), "frames": [[f["fin"], f["op"], len(f["hex"]) // 2] for f in sc["frames"][:40]],
             "chunk_sizes": sc.get("sizes"), "short_write_pattern": sc.get("accept"), "send_would_block_at_calls": sc.get("send_eagain"),
             "concurrent_sender": sc.get("sender"), "policy": sc.get("policy")}
+
+
+# ---- object history: the same scenarios on a WebSocket object whose earlier connection was lost in the middle of a frame or
+# of a fragmented message (state of the earlier connection must not reach this one)
+from ..recvdrv import PRIOR_LOSSES as _PRIOR_LOSSES, gen_prior as _gen_prior  # noqa: E402
+_gen0, _plan0, _expand0 = gen, plan, expand
+
+
+def gen(rng):
+    sc = _gen0(rng)
+    pr = _gen_prior(rng)
+    if pr:
+        sc["prior"] = pr
+    return sc
+
+
+def plan(tier, seed):
+    return _plan0(tier, seed) + [{"kind": "reused", "count": 120 if tier == "quick" else 3000}]
+
+
+def expand(item, seed):
+    if item.get("kind") == "reused":
+        for i in range(item["count"]):
+            sc = _gen0(random.Random(derive_seed(seed, ID + "R", i)))
+            sc["prior"] = dict(_PRIOR_LOSSES[i % len(_PRIOR_LOSSES)])
+            yield sc
+        return
+    for sc in _expand0(item, seed):
+        yield sc
